@@ -121,6 +121,50 @@ type wctx struct {
 	// inlined helper only: what the caller passed for a parameter (buffer size / wire kind of the argument)
 	bindRaw  map[types.Object]string
 	bindKind map[types.Object][]string
+	defs     map[types.Object]ast.Expr // locals defined once by := and never reassigned
+}
+
+// defOf: the defining expression of a local that is assigned exactly once.
+func (w *wctx) defOf(id *ast.Ident) ast.Expr {
+	if w.m == nil || w.m.decl == nil || w.m.decl.Body == nil {
+		return nil
+	}
+	if w.defs == nil {
+		w.defs = map[types.Object]ast.Expr{}
+		re := map[types.Object]bool{}
+		ast.Inspect(w.m.decl.Body, func(n ast.Node) bool {
+			switch v := n.(type) {
+			case *ast.AssignStmt:
+				for i, l := range v.Lhs {
+					lid, ok := l.(*ast.Ident)
+					if !ok {
+						continue
+					}
+					if o := w.info.Defs[lid]; o != nil && v.Tok == token.DEFINE && len(v.Lhs) == len(v.Rhs) {
+						w.defs[o] = v.Rhs[i]
+					} else if o := w.info.Uses[lid]; o != nil {
+						re[o] = true
+					}
+				}
+			case *ast.UnaryExpr:
+				// &x escapes: later writes through the pointer are not visible here
+				if v.Op == token.AND {
+					if xid, ok := ast.Unparen(v.X).(*ast.Ident); ok {
+						if o := w.info.Uses[xid]; o != nil {
+							if _, isStruct := o.Type().Underlying().(*types.Struct); !isStruct {
+								re[o] = true
+							}
+						}
+					}
+				}
+			}
+			return true
+		})
+		for o := range re {
+			delete(w.defs, o)
+		}
+	}
+	return w.defs[w.info.Uses[id]]
 }
 
 func (w *wctx) mentionsStream(e ast.Expr) bool {
@@ -803,6 +847,18 @@ func (w *wctx) elemOf(x ast.Expr, method string) []string {
 		if id, ok := inner.(*ast.Ident); ok {
 			if k, ok := w.bindKind[info.Uses[id]]; ok {
 				return k
+			}
+		}
+	}
+	// a local holding a literal (fields := pk.Tuple{...}; fields.WriteTo(w)): the literal
+	if id, ok := x.(*ast.Ident); ok {
+		if def := w.defOf(id); def != nil {
+			d := ast.Unparen(def)
+			if u, ok := d.(*ast.UnaryExpr); ok && u.Op == token.AND {
+				d = ast.Unparen(u.X)
+			}
+			if _, isLit := d.(*ast.CompositeLit); isLit {
+				return w.elemOf(d, method)
 			}
 		}
 	}
